@@ -176,7 +176,7 @@ MECH = [
 # --------------------------------------------------------------------- plan
 def plan(tier: str, seed: int) -> list[dict]:
     q = tier == "quick"
-    bud, tmo = (75, 500) if q else (1000, 2400)
+    bud, tmo = (60, 500) if q else (520, 2400)
     specs = [{"name": "core", "fn": "shard_core", "_budget_s": bud, "_timeout_s": tmo}]
     parts = 1 if q else 3
     for g in GROUPS:
@@ -273,6 +273,13 @@ class World:
 
         self.ScriptPubKey = ScriptPubKey
         self._pool = None
+        self.deadline = float("inf")
+
+    def over(self) -> bool:
+        """The current class's share of the shard budget is spent."""
+        import time
+
+        return self.ctx.out_of_time() or time.time() > self.deadline
 
     # ---- secp256k1 points by the reference arithmetic (small pool, ~9 ms each)
     @property
@@ -510,6 +517,8 @@ def fix_values(w: World, key: str, v: dict) -> None:
     if key == "inventory.Headers":
         for e in v["headers"]:
             fix_hdr(w, e["header"])
+    if key == "tx_out.TxOut" and r.random() < 0.8:
+        v["value"] = r.choice([0, 1, 546, 21 * 10**14 - 1, 21 * 10**14, r.randrange(21 * 10**14)])
     if key == "addrv2.NetworkAddressV2":
         fix_addrv2(w, v)
     if key == "addrv2.AddrV2":
@@ -927,7 +936,11 @@ def run_layout_class(ctx: Ctx, w: World, key: str, budget_s: float, rounds: int)
         except (tc.RefError, OverflowError, ValueError):
             ctx.stat("reference-writer-refused-values")
             continue
-        _, fields, _ = wf.read_all(layout, rb)
+        try:
+            _, fields, _ = wf.read_all(layout, rb)
+        except tc.RefError:             # e.g. no inputs and one output: the bytes read as a segwit marker (BIP144's known ambiguity)
+            ctx.stat("reference-encoding-ambiguous")
+            fields = []
         mk = outcome(make, w, cls, v, True)
         if mk[0] == "raise":
             if not is_lib_exc(mk[1]):
@@ -975,7 +988,7 @@ def run_dsa(ctx: Ctx, w: World, rounds: int) -> None:
     ss = [1, 127, 128, 255, 256, (1 << 255) - 1, 1 << 255, N - 1, N // 2, N // 2 + 1]
     cases = [(r, s) for r in rs[:6] for s in ss] + [(w.rng.choice(rs), w.rng.randrange(1, N)) for _ in range(rounds)]
     for r, s in cases:
-        if ctx.out_of_time():
+        if w.over():
             break
         rb = der.encode(r, s)
         lr = rb[3]
@@ -1007,7 +1020,7 @@ def run_dsa(ctx: Ctx, w: World, rounds: int) -> None:
 def run_envelope(ctx: Ctx, w: World, rounds: int) -> None:
     d = ClassDriver(w, "ecies.Envelope")
     for it in range(rounds):
-        if ctx.out_of_time():
+        if w.over():
             break
         nblocks = [1, 2, 3, 16, 4096][it % 5] if it < 10 else w.rng.randrange(1, 9)
         parts = (b"BIE1", w.pub33(it), w.rb(16 * nblocks), w.blob(32))
@@ -1032,7 +1045,7 @@ def run_borromean(ctx: Ctx, w: World, rounds: int) -> None:
     key = "borromean.BorromeanSig"
     shapes = [(1,), (2,), (1, 1), (3, 2), (1, 2, 3), (252,), (253,), (2,) * 40]
     for it in range(rounds + len(shapes)):
-        if ctx.out_of_time():
+        if w.over():
             break
         rsizes = shapes[it] if it < len(shapes) else tuple(w.rng.randrange(1, 5) for _ in range(w.rng.randrange(1, 5)))
         d = ClassDriver(w, key, parse_kw={"rsizes": rsizes})
@@ -1055,7 +1068,7 @@ def run_block_filter(ctx: Ctx, w: World, rounds: int) -> None:
     key = "block_filter.BasicBlockFilter"
     counts = [0, 1, 2, 3, 10, 252, 253, 300]
     for it in range(rounds + len(counts)):
-        if ctx.out_of_time():
+        if w.over():
             break
         n = counts[it] if it < len(counts) else w.rng.randrange(0, 40)
         block_hash = w.rb(32)                      # display order, as BasicBlockFilter holds it
@@ -1087,7 +1100,7 @@ def run_bip21(ctx: Ctx, w: World, rounds: int) -> None:
     amounts = [None, "0", "1", "0.00000001", "21000000", "20999999.99999999", "1.10", "0.5", "100"]
     texts = [None, "", "a", "Luke-Jr", "with space", "amp&ersand=eq", "100%", "ünï cödé ✓", "#frag?", "a+b", "%41", "x" * 300]
     for it in range(rounds + 40):
-        if ctx.out_of_time():
+        if w.over():
             break
         r = w.rng
         others = {}
@@ -1231,9 +1244,13 @@ def shard_group(ctx: Ctx) -> None:
         if ctx.out_of_time():
             ctx.notes.append(f"{group}: out of budget before {key}")
             break
-        rounds = (25 if quick else 400)
+        rounds = (150 if quick else 3000)
         if key in CUSTOM_RUNNERS:
+            import time
+
+            w.deadline = time.time() + per
             CUSTOM_RUNNERS[key](ctx, w, rounds)
+            w.deadline = float("inf")
         elif key == "network.Network":
             run_network(ctx, w)
         else:
@@ -1867,6 +1884,8 @@ def _classify_lost(scope: str, key: bytes, value: bytes, map_pairs) -> str:
     kt = key[0]
     whole = {"global": GLOBAL_WHOLE, "in": IN_WHOLE, "out": OUT_WHOLE}[scope]
     keys = {k for k, _ in map_pairs}
+    if sum(1 for k, _ in map_pairs if k == key) > 1:
+        return "duplicate-key-accepted"
     if scope == "in" and kt in IN_DROPPED_WHEN_FINAL and (b"\x07" in keys or b"\x08" in keys):
         return "dropped-beside-final-script"
     if scope == "global" and key == b"\xfb" and value == bytes(4):
@@ -1889,18 +1908,24 @@ def _scopes(p: pm.PsbtMaps):
     return ["global"] + ["in"] * len(sp[1]) + ["out"] * len(sp[2])
 
 
-def pairs_verdict(ctx: Ctx, who: str, before: list[list], after: list[list], scopes, case: dict, kind: str) -> None:
+def pairs_verdict(ctx: Ctx, who: str, before: list[list], after: list[list], scopes, case: dict, kind: str) -> int:
+    """No (map, key, value) pair of ``before`` may be missing from ``after``; returns how many are."""
     lost, gained = pm.lost_and_gained(pm.PsbtMaps(before), pm.PsbtMaps(after))
     ctx.case("psbt:pairs", None)
     if gained:
         ctx.stat(f"psbt:pairs-gained:{who}")
-    for mi, k, v in lost[:4]:
+    seen = set()
+    for mi, k, v in lost:
         sc = scopes[mi] if scopes and mi < len(scopes) else "?"
         how = _classify_lost(sc, k, v, before[mi]) if sc != "?" else f"type-0x{k[0]:02x}"
         altered = any(g[0] == mi and g[1][:1] == k[:1] for g in gained)
-        ctx.violation(f"{who}:pair-{'altered' if altered else 'lost'}:{sc}:{how}",
-                      f"{who}: the accepted {kind} PSBT had ({sc} map {mi}) key {k.hex()[:40]} -> value {v.hex()[:40]} ({len(v)} bytes); after parse+serialize that pair is "
-                      f"{'replaced by another of the same type' if altered else 'gone'}", case)
+        mech = f"psbt:pair-{'altered' if altered else 'lost'}:{sc}:{how}"
+        if mech in seen:
+            continue
+        seen.add(mech)
+        ctx.violation(mech, f"{who}: the accepted {kind} PSBT had ({sc} map {mi}) key {k.hex()[:40]} -> value {v.hex()[:40]} ({len(v)} bytes); after parse+serialize "
+                      f"that pair is {'replaced by another of the same type' if altered else 'gone'}", case)
+    return len(lost)
 
 
 def psbt_rule(ctx: Ctx, w: World, b: bytes, kind: str, cvs=(True, False)):
@@ -1923,6 +1948,13 @@ def psbt_rule(ctx: Ctx, w: World, b: bytes, kind: str, cvs=(True, False)):
                           f"Psbt.parse(check_validity={cv}) accepted a {kind} PSBT but serialize raised {s[1]!r}", case)
             continue
         s1 = s[1]
+        n_lost = 0
+        if ref[0] == "ok":
+            after = outcome(pm.parse, s1)
+            if after[0] == "raise":
+                ctx.violation("psbt.Psbt:serialization-not-a-psbt", f"the reference map reader cannot read serialize(): {after[1]}", {**case, "reserialized": s1})
+            else:
+                n_lost = pairs_verdict(ctx, "psbt.Psbt", ref[1].maps, after[1].maps, _scopes(ref[1]), case, kind)
         o2 = outcome(P.parse, s1, check_validity=cv)
         if o2[0] == "raise":
             ctx.violation("psbt.Psbt:own-serialization-refused", f"serialize() of an accepted {kind} PSBT is refused by parse: {o2[1]!r}", {**case, "reserialized": s1})
@@ -1930,15 +1962,9 @@ def psbt_rule(ctx: Ctx, w: World, b: bytes, kind: str, cvs=(True, False)):
             s2 = outcome(o2[1].serialize, check_validity=cv)
             if s2[0] == "raise" or s2[1] != s1:
                 ctx.violation("psbt.Psbt:not-a-fixed-point", f"serialize(parse(serialize(parse(b)))) differs from serialize(parse(b)) for a {kind} PSBT", {**case, "first": s1})
-            if not (o2[1] == o[1]):
+            if not n_lost and not (o2[1] == o[1]):      # a lost pair already says why the objects differ
                 ctx.violation("psbt.Psbt:object-roundtrip-differs", f"parse(serialize(x)) != x for the object parsed from a {kind} PSBT", case)
         ctx.case("psbt:fixed-point", ("pfp", b, cv))
-        if ref[0] == "ok":
-            after = outcome(pm.parse, s1)
-            if after[0] == "raise":
-                ctx.violation("psbt.Psbt:serialization-not-a-psbt", f"the reference map reader cannot read serialize(): {after[1]}", {**case, "reserialized": s1})
-            else:
-                pairs_verdict(ctx, "psbt.Psbt", ref[1].maps, after[1].maps, _scopes(ref[1]), case, kind)
         if cv and valid_obj is None:
             valid_obj = o[1]
     return valid_obj
@@ -1961,16 +1987,17 @@ def map_rule(ctx: Ctx, w: World, key: str, pairs: list, version: int, kind: str)
             ctx.violation(f"{key}:accepted-then-serialize-raises:{'library-refusal' if is_lib_exc(s[1]) else type(s[1]).__name__}",
                           f"{key}.parse accepted a {kind} map but serialize raised {s[1]!r}", case)
             continue
-        o2 = outcome(d.parse, s[1], cv)
-        if o2[0] == "raise" or outcome(d.ser, o2[1], cv) != ("ok", s[1]):
-            ctx.violation(f"{key}:not-a-fixed-point", f"{key}: re-serializing the parse of its own serialization differs ({kind})", {**case, "first": s[1]})
-        elif not (o2[1] == o[1]):
-            ctx.violation(f"{key}:object-roundtrip-differs", f"{key}: parse(serialize(x)) != x ({kind}, psbt_version={version})", case)
         after = outcome(pm.read_map, s[1], 0)
+        n_lost = 0
         if after[0] == "raise" or after[1][1] != len(s[1]):
             ctx.violation(f"{key}:serialization-not-a-map", f"{key}.serialize() is not one BIP174 map", {**case, "first": s[1]})
         else:
-            pairs_verdict(ctx, key, [pairs], [after[1][0]], [scope], case, kind)
+            n_lost = pairs_verdict(ctx, key, [pairs], [after[1][0]], [scope], case, kind)
+        o2 = outcome(d.parse, s[1], cv)
+        if o2[0] == "raise" or outcome(d.ser, o2[1], cv) != ("ok", s[1]):
+            ctx.violation(f"{key}:not-a-fixed-point", f"{key}: re-serializing the parse of its own serialization differs ({kind})", {**case, "first": s[1]})
+        elif not n_lost and not (o2[1] == o[1]):
+            ctx.violation(f"{key}:object-roundtrip-differs", f"{key}: parse(serialize(x)) != x ({kind}, psbt_version={version})", case)
         ctx.case("psbt:in-map" if scope == "in" else "psbt:out-map", (key, b, version, cv))
         if cv:
             ctx.case(f"obj:{key}", (key, b, version), sample={"class": key, "map": b, "psbt_version": version})
@@ -2058,7 +2085,7 @@ def shard_psbt_vectors(ctx: Ctx) -> None:
             ctx.notes.append(f"psbt-vec: budget reached at vector {i}/{len(corpus)}")
             break
         ctx.case("vendored:psbt", ("vp", b), sample={"file": fn, "psbt": b})
-        psbt_full(ctx, w, b, f"vendored:{fn}", mutate=True, cap=60 if ctx.tier == "quick" else 400)
+        psbt_full(ctx, w, b, f"vendored:{fn}", mutate=True, cap=160 if ctx.tier == "quick" else 600)
     reach.stop()
     reach.report(ctx)
 
@@ -2068,7 +2095,7 @@ def shard_psbt_generated(ctx: Ctx) -> None:
     install_m3_hook(ctx, w)
     reach = start_reach()
     n = 0
-    while not ctx.out_of_time() and n < (160 if ctx.tier == "quick" else 6000):
+    while not ctx.out_of_time() and n < (450 if ctx.tier == "quick" else 20000):
         version = 2 if n % 2 else 0
         maps = gen_psbt(w, version)
         b = pm.build(maps)
